@@ -29,6 +29,10 @@ tvars == <<l, bad, seen>>
 -----------------------------------------------------------------------------
 -----------------------------------------------------------------------------
 (* clauses per event family; each returns the set of names of failed clauses *)
+(* Cls.from_data(d) is from_data(d, Cls), x.into_data() is into_data(x, type(x)), Cls.from_obj(x) is      *)
+(* convert(x, Cls): where the harness recorded the outcome of the method spelling (field f), it must be  *)
+(* the outcome of the function spelling                                                                    *)
+MethodVariant(e, f, main) == IF f \in DOMAIN e /\ e[f] # main THEN {"method-variant-differs"} ELSE {}
 FromDataFails(e) ==
   LET r == Verdict(e.ty, e.val) IN
   (IF e.out.k = "reject" THEN (IF r = "A" THEN {"must-accept"} ELSE {})
@@ -37,6 +41,7 @@ FromDataFails(e) ==
               ELSE IF r = "A" /\ Dec(e.out.x) # Img(e.ty, e.val) THEN {"image"} ELSE {})
         ELSE {"foreign-exception"})
   \cup (IF e.rerun = "F" THEN {"nondeterministic"} ELSE {})
+  \cup MethodVariant(e, "alt", e.out)
 
 (* C04/C12: building a converter for a documented type never fails; an unsupported or      *)
 (* ill-formed one (doc = "F") fails with TypeError / UnsupportedAnnotation, and where the   *)
@@ -75,7 +80,7 @@ UnionShadow(T, v, d) ==
      m > 1 /\ \E j \in 1..(m - 1) : Verdict(T.alts[j], d) # "R"
 
 (* C05: x obtained by conversion; d = into_data(x); x2 = from_data(d); d2 = into_data(x2) *)
-RoundTripFails(e) ==
+RoundTripCore(e) ==
   IF Verdict(e.ty, e.val) # "A" \/ e.x.k # "ok" THEN {}
   ELSE IF Dec(e.x.x) # Img(e.ty, e.val) THEN {}   \* a wrong image is C01's to report
   ELSE IF ~OutEnabled(e.ty) \/ ~StdVal(Dec(e.x.x)) THEN {}   \* outside the property's precondition
@@ -89,6 +94,8 @@ RoundTripFails(e) ==
              ELSE IF e.d2.k # "ok" THEN {"reserialise-failed"}
              ELSE IF ~DataEqUpToSets(e.ty, d, e.d2.x) THEN {"reserialise-differs"} ELSE {})
 
+RoundTripFails(e) == MethodVariant(e, "dm", e.d) \cup RoundTripCore(e)
+
 (* C06: typed values are fixed points of convert.  Only judged when x is the value the      *)
 (* semantics says from_data(v, T) yields (otherwise C01 reports, not C06).  Equality is     *)
 (* Python's ==, which does not look at the set-field record of dataclass instances.         *)
@@ -97,7 +104,7 @@ FixOne(o, x, name, ES, shadow) ==
   ELSE IF o.k # "ok" THEN {name \o "-refused"}
   ELSE IF StripX(Dec(o.x), ES) # StripX(x, ES)
        THEN (IF shadow THEN {name \o "-shadowed-by-earlier-union-member"} ELSE {name \o "-differs"}) ELSE {}
-FixpointFails(e) ==
+FixpointCore(e) ==
   IF e.have = "F" \/ Verdict(e.ty, e.val) # "A" THEN {}
   ELSE LET x == Dec(e.x) IN
        IF x # Img(e.ty, e.val) \/ ~OutEnabled(e.ty) \/ ~ReadsOwnForm(e.ty) \/ ~StdVal(x) THEN {}
@@ -105,6 +112,8 @@ FixpointFails(e) ==
                 \* convert = parse(serialise-by-own-type): an earlier union member that reads that serialised form wins
                 sh == e.ty.k = "union" /\ e.ser.k = "ok" /\ UnionShadow(e.ty, e.val, e.ser.x) IN
             FixOne(e.out, x, "fixpoint", ES, sh) \cup FixOne(e.nat, x, "native", ES, sh) \cup FixOne(e.twice, x, "twice", ES, sh)
+
+FixpointFails(e) == MethodVariant(e, "obj", e.out) \cup FixpointCore(e)
 
 (* C11: serialising a union value uses a member that accepts it *)
 UnionSerFails(e) ==
